@@ -21,9 +21,9 @@ NOT_DECIDED = [
 ]
 
 (WIRE, ABS_ANY, ABS_CLEAN, REL_CLEAN, REL_ANY, COMP, COMP_NDD, PARTS_ABS, PARTS_TAIL, PARTS_ANY, BASE, CONFINED, UNCONF,
- S_REL_CLEAN, S_REL_ANY, ROOTSTR, BOOL, TOP) = (
+ S_REL_CLEAN, S_REL_ANY, ROOTSTR, BOOL, TOP, ANCHORSTR) = (
     "WIRE", "ABS_ANY", "ABS_CLEAN", "REL_CLEAN", "REL_ANY", "COMP", "COMP_NDD", "PARTS_ABS", "PARTS_TAIL", "PARTS_ANY", "BASE",
-    "CONFINED", "UNCONF", "S_REL_CLEAN", "S_REL_ANY", "ROOTSTR", "BOOL", "TOP")
+    "CONFINED", "UNCONF", "S_REL_CLEAN", "S_REL_ANY", "ROOTSTR", "BOOL", "TOP", "ANCHORSTR")
 WORSE = {ABS_CLEAN: ABS_ANY, REL_CLEAN: REL_ANY, COMP_NDD: COMP, CONFINED: UNCONF, S_REL_CLEAN: S_REL_ANY, BASE: UNCONF}
 
 
@@ -37,6 +37,10 @@ def join(a, b):
         return CONFINED
     if {a, b} <= {BASE, CONFINED, UNCONF}:
         return UNCONF
+    if {a, b} <= {PARTS_ABS, PARTS_TAIL, PARTS_ANY}:
+        return PARTS_ANY
+    if {a, b} <= {ABS_ANY, ABS_CLEAN, WIRE, REL_ANY, REL_CLEAN}:
+        return WIRE if ({a, b} & {WIRE, REL_ANY, REL_CLEAN}) else ABS_ANY
     return TOP
 
 
@@ -67,6 +71,8 @@ def interpret_resolver(p):
                 return {ABS_CLEAN: ABS_CLEAN, ABS_ANY: ABS_ANY, CONFINED: UNCONF, BASE: UNCONF}.get(v, TOP)
             if e.attr == "parts":
                 return PARTS_ABS if v in (ABS_ANY, ABS_CLEAN) else PARTS_ANY if v in (WIRE, REL_ANY, REL_CLEAN) else TOP
+            if e.attr in ("anchor", "root", "drive") and v in (WIRE, ABS_ANY, ABS_CLEAN, REL_ANY, REL_CLEAN):
+                return ANCHORSTR   # '', '/' or '//' (POSIX keeps exactly two leading slashes): not the root '/'
             return TOP
         if isinstance(e, ast.Subscript):
             v = ev(e.value, env)
@@ -93,6 +99,8 @@ def interpret_resolver(p):
                 v = ev(a, env)
                 if v in (WIRE, ABS_ANY, ABS_CLEAN, REL_ANY, REL_CLEAN):
                     return v
+                if v == ANCHORSTR:
+                    return ABS_ANY   # may be '//'-anchored: no entry rooted at '/' is its ancestor
                 return TOP
             if isinstance(fn, ast.Name) and fn.id == "str" and e.args:
                 return {REL_CLEAN: S_REL_CLEAN, REL_ANY: S_REL_ANY}.get(ev(e.args[0], env), TOP)
@@ -253,14 +261,19 @@ def rule_res(ctx):
                 ctx.ob("C02.RES", s, f"real path (component {i}) is re-checked with is_relative_to(base) and falls back to the base", g[i],
                        "real path is not re-checked with is_relative_to(base_path) with a fallback to the base "
                        "(needed on path flavours where a component can re-anchor the join)", construct="get_paths:no is_relative_to guard")
+        tops = [i for i in virt if vals[i] == TOP]
         for i in virt:
+            if vals[i] == TOP:
+                continue
             ok = vals[i] == ABS_CLEAN
-            if vals[i] == TOP and not any_fail and not any(k == "violation" for k, n, m in notes):
-                raise Inconclusive("C02.RES: a returned component has no abstract value (operation outside the vocabulary): " + src(s))
             any_fail |= not ok
             ctx.ob("C02.RES", s, f"returned virtual path (component {i}) is {vals[i]}", ok,
-                   f"returned virtual path (component {i}) is not the folded absolute form (may still contain '..' or be relative): {vals[i]}",
+                   f"returned virtual path (component {i}) is not the folded absolute form rooted at '/' (may still contain '..', be relative, or be '//'-anchored): {vals[i]}",
                    construct=f"get_paths:return[{i}]={vals[i]}")
+        if tops and not any_fail and not any(k == "violation" for k, n, m in notes):
+            raise Inconclusive("C02.RES: a returned component has no abstract value (operation outside the vocabulary): " + src(s))
+        if tops:
+            continue
         if not real:
             any_fail = True
             ctx.fail("C02.RES", s, "no returned component is derived from the user's base path", construct="get_paths:no base-derived component")
